@@ -376,7 +376,7 @@ def run_case(case, step_oracle, *, final_oracle=None, nontrivial=None, extra_cla
                     fails = [(_attr(w, s), c, f'after op #{i} {op}: [{s}] {m}') for s, c, m in r]
                     break
                 prev = cur
-            if not fails and final_oracle is not None:
+            if not fails and final_oracle is not None and not getattr(w, 'stop_history', False):
                 r = final_oracle(w, prev)
                 if asyncio.iscoroutine(r):
                     r = await r
